@@ -246,6 +246,7 @@ func (x *Exec) runLoop(st *State, ls loopSpec) *State {
 		// G relates the state at loop entry (a cut point) to every later loop head: each iteration
 		// is checked against G and G is transitive
 		x.assumeGuar(st, loopEntry, fr.recv)
+		x.assumeTimeless(st)
 		st.secStart = st.Snapshot()
 		st.held = 1
 	}
